@@ -487,6 +487,26 @@ MIXED_OPS = {
     "diag3_dense": lambda o: o["diag3"].todense(),
     "gperm_max_last": lambda o: o["gperm"].max(axis=-1),
     "gperm_min_first": lambda o: o["gperm"].min(axis=0),
+    # structural functions on shared operands (coordinate arithmetic on a private copy; seeded C13-m6: flip mirrored
+    # the operand's own intp coordinates) and the read-only calls on the same operands whose value would notice
+    "flip_all": lambda o: __import__("sparse").flip(o["y"]),
+    "flip_axis_cached": lambda o: __import__("sparse").flip(o["x"], axis=1),
+    "flip_perm": lambda o: __import__("sparse").flip(o["perm"], axis=-1),
+    "roll_axis": lambda o: __import__("sparse").roll(o["y"], 2, axis=0),
+    "roll_flat_cached": lambda o: __import__("sparse").roll(o["z"], 3),
+    "sort_axis0": lambda o: __import__("sparse").sort(o["y"], axis=0),
+    "sort_axis0_cached": lambda o: __import__("sparse").sort(o["z"], axis=0),
+    "argmax_axis": lambda o: __import__("sparse").argmax(o["y"], axis=0),
+    "take_rows": lambda o: __import__("sparse").take(o["y"], [0, 2], axis=0),
+    "pad_one": lambda o: __import__("sparse").pad(o["y"], 1),
+    "triu_cached": lambda o: __import__("sparse").triu(o["z"], 1),
+    "moveaxis_cached": lambda o: __import__("sparse").moveaxis(o["x"], 0, -1),
+    "expand_squeeze": lambda o: __import__("sparse").squeeze(__import__("sparse").expand_dims(o["y"], axis=1), axis=1),
+    "concat_self": lambda o: __import__("sparse").concatenate([o["y"], o["y"]], axis=0),
+    "stack_cached": lambda o: __import__("sparse").stack([o["z"], o["z"]], axis=1),
+    "y_dense": lambda o: o["y"].todense(),
+    "y_sum0": lambda o: o["y"].sum(axis=0),
+    "y_getitem": lambda o: o["y"][1:, ::-1],
     # the same through a second array object sharing the cache (COO(x))
     "alias_transpose": lambda o: o["xa"].transpose((2, 0, 1)),
     "alias_reshape": lambda o: o["xa"].reshape((12, 5)),
